@@ -279,6 +279,10 @@ impl<T: Payload> World<T> {
                         let node = &arena[id];
                         let text = node.get().canon();
                         if text != T::canon_of(mn.val) {
+                            if owner != "C08" {
+                                // "and nothing else changes": a call that alters a bystander's payload
+                                found.push(viol(owner, "payload_mismatch", format!("after {}: payload of k{}@{} changed", op.name(), k, i)));
+                            }
                             found.push(viol(
                                 "C08",
                                 "payload_mismatch",
